@@ -1,47 +1,44 @@
 #!/bin/bash
-# Confirms a seeded change produced by a sub-agent, in its scratch worktree /tmp/seed/<Cxx>:
-#  suite passes with patch, demo fails with patch, demo passes without patch.
-# On success copies patch.diff, demo_test.go, meta.json to /verif/seeded/<Cxx>-<a|b>/ and appends what was run.
-# usage: tools/confirm_seed.sh C01 A
+# Confirms a seeded change produced by a sub-agent, in its scratch worktree <base>/<Cxx>:
+#  demo passes on the clean worktree, the 137-test suite passes with the patch, the demo fails with the patch.
+# On success copies patch.diff, the demonstration and meta.json to /verif/seeded/<Cxx>-<suffix>/ .
+# usage: tools/confirm_seed.sh <base dir> <Cxx> <A|B> <suffix>      e.g.  tools/confirm_seed.sh /tmp/seed2 C01 A c
 set -u
 export GOFLAGS=-mod=mod GOPROXY=off GOSUMDB=off GOTOOLCHAIN=local
-P=$1; V=$2; v=$(echo $V | tr A-Z a-z)
-W=/tmp/seed/$P; O=$W/OUT/$V
+BASE=$1; P=$2; V=$3; SUF=$4; v=$(echo $V | tr A-Z a-z)
+W=$BASE/$P; O=$W/OUT/$V
 cd $W || exit 2
-git checkout -q -- . ; 
+git checkout -q -- . 
 demo_dir=$(python3 -c "import json;print(json.load(open('$O/meta.json')).get('demo_dir','demo_$v'))" 2>/dev/null || echo demo_$v)
 [ -d "$W/$demo_dir" ] || demo_dir=demo_$v
 race=""; [ "$P" = C20 ] && race="-race"
 git apply --check $O/patch.diff || { echo "$P-$V: patch does not apply"; exit 1; }
-# 1. demo passes without patch
-go test $race -vet=off -count=1 ./$demo_dir/ > /tmp/seed/$P-$V.clean.log 2>&1; clean=$?
+clean=0; for i in 1 2 3; do go test $race -vet=off -count=1 ./$demo_dir/ > $BASE/$P-$V.clean.log 2>&1 || clean=1; done
 git apply $O/patch.diff
-# 2. suite passes with patch
-go test -vet=off -count=1 ./component/... ./tensor/... > /tmp/seed/$P-$V.suite.log 2>&1; suite=$?
+go test -vet=off -count=1 ./component/... ./tensor/... > $BASE/$P-$V.suite.log 2>&1; suite=$?
 npass=$(go test -vet=off -count=1 -v ./component/... ./tensor/... 2>/dev/null | grep -c '^--- PASS')
-# 3. demo fails with patch
-go test $race -vet=off -count=1 ./$demo_dir/ > /tmp/seed/$P-$V.patched.log 2>&1; patched=$?
-git checkout -q -- . ; git status --short | grep -v '^??' 
-echo "$P-$V: demo_clean_exit=$clean suite_with_patch_exit=$suite tests_passed=$npass demo_with_patch_exit=$patched"
-if [ $clean -eq 0 ] && [ $suite -eq 0 ] && [ $patched -ne 0 ] && [ "$npass" = 137 ]; then
-  D=/verif/seeded/$P-$v; mkdir -p $D
-  cp $O/patch.diff $D/patch.diff; cp $W/$demo_dir/*_test.go $D/ 2>/dev/null || cp $O/demo_test.go $D/
+patched=0; for i in 1 2 3; do go test $race -vet=off -count=1 ./$demo_dir/ > $BASE/$P-$V.patched.log 2>&1 && patched=$((patched+1)); done   # counts passes: must be 0
+git checkout -q -- . ; git status --short | grep -v '^??'
+echo "$P-$V: demo_clean_failures=$clean suite_with_patch_exit=$suite tests_passed=$npass demo_with_patch_passes=$patched/3"
+if [ $clean -eq 0 ] && [ $suite -eq 0 ] && [ $patched -eq 0 ] && [ "$npass" = 137 ]; then
+  D=/verif/seeded/$P-$SUF; mkdir -p $D
+  cp $O/patch.diff $D/patch.diff; cp $W/$demo_dir/*_test.go $D/
   python3 - "$O/meta.json" "$D/meta.json" "$P" "$demo_dir" "$race" <<'PY'
 import json,sys
 src,dst,P,demo,race=sys.argv[1:6]
 try: m=json.load(open(src))
 except Exception: m={}
 out={"property":P,"summary":m.get("summary"),"needs_to_manifest":m.get("needs_to_manifest"),"why_tests_pass":m.get("why_tests_pass"),
- "origin":"written by an independent sub-agent given only the property text and a scratch worktree",
- "confirmed_by_me":{"worktree":"scratch git worktree of /repo HEAD under /tmp/seed (removed afterwards)",
-   "ran":[f"go test {race} -vet=off -count=1 ./{demo}/   on the clean worktree -> PASS",
+ "origin":"written by an independent sub-agent given only the property text (plus one-line summaries of earlier seeded changes to avoid repeats) and a scratch worktree",
+ "confirmed_by_me":{"worktree":"scratch git worktree of /repo HEAD under /tmp (removed afterwards)",
+   "ran":[f"go test {race} -vet=off -count=1 ./{demo}/   on the clean worktree, 3 times -> PASS",
           "git apply patch.diff; go test -vet=off -count=1 ./component/... ./tensor/...  -> ok, 137 tests PASS",
-          f"go test {race} -vet=off -count=1 ./{demo}/   with the patch -> FAIL",
+          f"go test {race} -vet=off -count=1 ./{demo}/   with the patch, 3 times -> FAIL each time",
           "git checkout -- ."],
    "demo_placement":f"new directory {demo}/ at the repository root (external test package, public API only)"}}
 json.dump(out,open(dst,"w"),indent=1)
 PY
   echo "$P-$V: CONFIRMED -> $D"
 else
-  echo "$P-$V: NOT confirmed (see /tmp/seed/$P-$V.*.log)"
+  echo "$P-$V: NOT confirmed (see $BASE/$P-$V.*.log)"
 fi
